@@ -142,6 +142,50 @@ struct Case {
                 }
                 ok = compare_all("non-interference");
             }
+            // a field that received these cells by copy assignment over a field with other extents (smaller for odd cell
+            // counts, larger otherwise) holding other values: every coordinate reads what the source holds, and a write
+            // through the new field's view is read back there
+            if (ok && (ncell % 3 != 1)) {
+                vh::set_case("%s extents=%s small-scope (copy-assigned over a field with other extents)", nm.c_str(), sc::show<N>(e).c_str());
+                sc::ext_t<N> e2 = e;
+                for (std::size_t k = 0; k < N; ++k) e2[k] = (ncell & 1) ? (e[k] > 1 ? e[k] - 1 : 1) : e[k] + 1 + k % 2;
+                if (sizeof(I) >= 8 || sc::cells<N>(e2) <= (uint64_t)std::numeric_limits<I>::max() / 2) {
+                    field_t o(covfie::make_parameter_pack(typename backend_t::configuration_t(e2), covfie::utility::nd_size<1>{storage_len(e2)}));
+                    {
+                        typename field_t::view_t vo(o);
+                        typename field_t::coordinate_t z;
+                        for (std::size_t k = 0; k < N; ++k) z[k] = (I)0;
+                        for (std::size_t j = 0; j < M; ++j) vo.at(z)[j] = (S)-77;
+                    }
+                    o = f;
+                    typename field_t::view_t vo(o);
+                    uint64_t d[N] = {};
+                    do {
+                        typename field_t::coordinate_t cc;
+                        for (std::size_t k = 0; k < N; ++k) cc[k] = (I)d[k];
+                        for (std::size_t j = 0; j < M; ++j) {
+                            S got = vo.at(cc)[j], want = model[sc::model_pos<N>(d, e) * M + j];
+                            vh::ev();
+                            if (got != want) {
+                                vh::viol(nm + ":readback-after-copy-assignment", "extents=" + sc::show<N>(e) + " (assigned over extents " + sc::show<N>(e2) + ") c=" + vh::jarr(d, N) + " component " + std::to_string(j) + " reads " + std::to_string((double)got) + ", the source holds " + std::to_string((double)want));
+                                ok = false;
+                            }
+                        }
+                    } while (ok && sc::next_coord<N>(d, e));
+                    if (ok) {
+                        // last cell written through the new field, read back there, the source untouched
+                        typename field_t::coordinate_t cc;
+                        for (std::size_t k = 0; k < N; ++k) cc[k] = (I)(e[k] - 1);
+                        const S before = view.at(cc)[M - 1];
+                        vo.at(cc)[M - 1] = (S)4242;
+                        vh::ev();
+                        if (vo.at(cc)[M - 1] != (S)4242 || view.at(cc)[M - 1] != before) {
+                            vh::viol(nm + ":write-after-copy-assignment", "extents=" + sc::show<N>(e));
+                            ok = false;
+                        }
+                    }
+                }
+            }
             if constexpr (L != L_STRIDED) {
                 // the same on a field whose storage the LIBRARY sized: converted from a row-major field
                 // (the row-major source accumulates its flat index in the coordinate type: it must be able to count the cells)
